@@ -122,6 +122,11 @@ theorem findBrk_exitLen (l : Option Label) (b : Bool) (ctx : List BI) :
       cases findBrk l b rest with
       | none => rfl
       | some p => simp
+    | switch_ bp =>
+      simp only [List.map_cons, BI.shape, exitLen, findBrk]
+      by_cases h : (b && l.isNone) = true
+      · simp [h]
+      · simp [h, ih]
     | iscope =>
       have hh : hitsHeadS l (rest.map BI.shape) = hitsHead l rest := by
         cases rest with
@@ -175,7 +180,7 @@ theorem gen_length (s : Stmt) : ∀ (cur : Nat) (lab : Option Label) (ctx : List
     by_cases h : isLoop s = true
     · simp [h, ih]
     · simp [h, ih, BI.shape]
-  | sw u k a b _ _ => intros; rfl
+  | sw u k a b iha ihb => intro cur lab ctx pc; simp [gen, glen, iha, ihb, BI.shape]; omega
   | withS s ih => intro cur lab ctx pc; simp [gen, glen, ih, BI.shape]; omega
   | blk s ih => intro cur lab ctx pc; simp [gen, glen, ih, BI.shape]; omega
   | ifIter m s ih => intro cur lab ctx pc; simp [gen, glen, ih]; omega
